@@ -1,0 +1,15 @@
+//go:build verif
+
+// Contracts for package chars, read as text by the verification-condition generator in /verif.
+// This file contains no code; with the build tag off it is not part of the build at all.
+
+package chars
+
+// The character class tables (generated-do-not-edit.go, 23k lines) are trusted data: whether a
+// byte string consists of identifier-safe characters is an uninterpreted function of its bytes.
+//@ ghost func identSafe(c array[uint64]byte, off uint64, n uint64) bool
+//@ spec chars.IdentSafe(d []byte) bool = identSafe(contents(d), uint64(d.off), uint64(len(d)))
+
+//@ func IsIdentifierSafe
+//@   trusted
+//@   ensures result == chars.IdentSafe(str)
